@@ -8,5 +8,6 @@ CONSTANTS
   CrcModel = "atomic"
   IgnoreSigpipe = TRUE
   Cap = 2
+  Buffered = TRUE
   Gaps = "all"
   Emit = TRUE
